@@ -86,6 +86,7 @@ func Run(r *ev.Run, replay string) {
 		"marker atom domain: markers packaging rejects or whose evaluation raises UndefinedComparison/UndefinedEnvironmentName (literal against literal, ~= on non-versions) are outside the domain",
 		"marker atom domain: atoms whose left value is not a PEP 440 version while operator+right value is a valid specifier are not judged (packaging 21.3 coerces the left side to LegacyVersion, later generations compare strings or refuse); this covers === on string-valued variables",
 		"marker atom domain: where the left value goes through Version() two more 21.3-only behaviours are not judged: === with a left literal that is not in normal form (21.3 compares str(Version(left))), and a pre/dev-release literal on the left of a version comparison (21.3 drops pre-releases in Specifier.contains, later generations pass prereleases=True)",
+		"version literals are written in PEP 440 normal form without epoch or local segment (as C03 restricts its ranges): other spellings (v3.9, 03.9, 3.9_post2, 1!3.9, 3.9+l) probe the version and range parsers of util/semver (C02/C03), not the marker evaluator",
 		"extra is compared with == only (both operand orders) against non-empty names: the library documents and tests that any other operator on extra is rejected, as setuptools never emits one",
 		"a resolution requests several extras at once only when the marker mentions at most one distinct extra literal: packaging evaluates one extra at a time and pip takes the disjunction over the requested extras, whereas the library looks every extra atom up in the union; on the restricted domain the two readings coincide",
 		"the target environment is the Markers table of util/resolve/pypi/internal/env.gen.go read as text (the package is internal); every value is confirmed by probing the resolver with `var === \"candidate\"` markers before it is used",
